@@ -53,6 +53,7 @@ func (m MapV) D() MapV {
 	}
 	return m
 }
+
 type StrV string
 
 // DT: abstract ddptypes.Type
@@ -300,6 +301,7 @@ type Closure struct {
 	Env *Env
 	Pkg *packages.Package
 }
+
 // NativeV: a function value supplied by the analysis (a callback that records what it is called with).
 type NativeV struct {
 	F func(args []Val) Val
